@@ -258,7 +258,7 @@ func init() {
 		pool := NewPool(0)
 		depth := 4
 		if rep.Tier == "thorough" {
-			depth = 6
+			depth = 8
 		}
 		st := BFSStats{}
 		sp := BFSSpec{Name: "api-2ue", Check: "C12", Oracle: "C12", Cfg: WorldCfg{Accounts: []Account{{supiA, 1, "1000", "2"}, {supiB, 1, "150", "1"}}},
